@@ -392,6 +392,10 @@ fn check_state(st: &St, out: &mut Out, opname: &str) {
 
 fn run(c: &Case, out: &mut Out) {
     let mut st: Option<St> = None;
+    let mut wq: Option<sozu_lib::udp::verif::Wq> = None;
+    // oracle for the write queue: everything accepted and not yet sent or dropped, in order
+    let mut wq_shadow: std::collections::VecDeque<Vec<u8>> = Default::default();
+    let mut wq_cap = 0usize;
     for op in &c.ops {
         let mut args_owned;
         let mut a = &op.args;
@@ -410,6 +414,55 @@ fn run(c: &Case, out: &mut Out) {
                     continue;
                 }
             }
+        }
+        if name == "wq_new" {
+            wq_cap = a[0].n() as usize;
+            wq = Some(sozu_lib::udp::verif::Wq::new(wq_cap));
+            wq_shadow.clear();
+            out.obs(&[]);
+            continue;
+        }
+        if name == "wq_push" {
+            let Some(q) = wq.as_mut() else { out.note("invalid-case: wq_push before wq_new"); out.obs(&[]); continue; };
+            let ok = q.push(addr_of(a[0].b(), a[1].n()), a[2].b().to_vec());
+            if ok != (wq_shadow.len() < wq_cap) {
+                out.viol("wq-bounded", &format!("push accepted={ok} with {} queued, cap {wq_cap}", wq_shadow.len()));
+            }
+            if ok {
+                wq_shadow.push_back(a[2].b().to_vec());
+            }
+            out.obs(&[tbool(ok), tbool(q.is_empty())]);
+            continue;
+        }
+        if name == "wq_drain" {
+            let Some(q) = wq.as_mut() else { out.note("invalid-case: wq_drain before wq_new"); out.obs(&[]); continue; };
+            let script = a[0].b().to_vec();
+            let (emptied, sent) = q.drain(&script);
+            // oracle: what leaves is an in-order, use-once selection of the queue's front; it stops at the first WouldBlock
+            let mut k = 0usize;
+            let mut expect_sent: Vec<Vec<u8>> = vec![];
+            while let Some(front) = wq_shadow.front() {
+                match script.get(k).copied().unwrap_or(0) {
+                    0 => { expect_sent.push(front.clone()); wq_shadow.pop_front(); }
+                    1 => break,
+                    _ => { wq_shadow.pop_front(); }
+                }
+                k += 1;
+            }
+            let got: Vec<Vec<u8>> = sent.iter().map(|x| x.1.clone()).collect();
+            if got != expect_sent {
+                out.viol("wq-order", &format!("drain sent {} datagrams, expected {} (duplicated, reordered or lost)", got.len(), expect_sent.len()));
+            }
+            if emptied != wq_shadow.is_empty() {
+                out.viol("wq-order", "drain reports emptied although datagrams remain (or the reverse)");
+            }
+            let mut t = vec![tbool(emptied)];
+            for (d, p) in &sent {
+                t.extend(addr_toks(d));
+                t.push(tb(p));
+            }
+            out.obs(&t);
+            continue;
         }
         if matches!(name, "setup" | "send" | "sleep" | "recluster") {
             // a scenario of the black-box tier (c19e): replayed there by props/c19.py:extra_stage
